@@ -102,6 +102,19 @@ def unit(case):
                 if max(abs(float(u) - eu), abs(float(v) - ev)) > (1e-12 if cast is not np.uint16 else 1e-6) * si:
                     viol.append({"what": "wind_decomposition", "form": f"integer-typed ({cast.__name__})", "speed": si, "wind_dir": di,
                                  "got": (float(u), float(v)), "expected": (eu, ev)})
+        # calm records: a speed of exactly zero (scalar, or entries of a series) decomposes into (0, 0) at any direction
+        for zero in (0.0, 0, np.float64(0.0), np.float32(0.0)):
+            for d in (0.0, 90.0, 137.5, 360.0, float(rng.uniform(0, 360))):
+                u, v = fn(zero, d)
+                n += 1
+                if not (np.isfinite(u) and np.isfinite(v) and float(u) == 0.0 and float(v) == 0.0):
+                    viol.append({"what": "wind_decomposition", "form": f"calm ({type(zero).__name__} zero)", "speed": 0.0, "wind_dir": d, "got": (float(u), float(v)), "expected": (0.0, 0.0)})
+        ss = np.array([0.0, 2.5, 0.0, 4.0])
+        d4 = rng.uniform(0, 360, 4)
+        us, vs = fn(ss, d4)
+        n += 1
+        if not (np.all(np.isfinite(us)) and np.all(np.isfinite(vs)) and np.allclose(np.hypot(us, vs), ss, atol=1e-12)):
+            viol.append({"what": "wind_decomposition", "form": "series with calm records", "speed": ss.tolist(), "got": (np.asarray(us).tolist(), np.asarray(vs).tolist())})
         # arrays
         dd = rng.uniform(0, 360, 50)
         uu, vv = fn(4.0, dd)
@@ -218,6 +231,7 @@ def e2e(case):
     # the same tower and forcing as a direction sweep through the timeseries driver: scalar speed / ustar / stability, a list of
     # wind directions (step 0 is the direction under test)
     sweep = None
+    sweep_driver = "run_bldfm_timeseries"
     if case["idx"] % 3 == 0:
         dirs = [wd, (wd + 100.0) % 360.0, (wd + 215.0) % 360.0]
         slow = case["idx"] % 6 == 3
@@ -234,7 +248,12 @@ def e2e(case):
         with warnings.catch_warnings():
             warnings.simplefilter("ignore")
             with np.errstate(all="ignore"):
-                series = bldfm.run_bldfm_timeseries(cfg2, cfg2.towers[0])
+                if case["idx"] % 12 == 6:
+                    # the same sweep through the parallel driver, steps shared between two workers
+                    series = bldfm.run_bldfm_parallel(cfg2, max_workers=2, parallel_over="time")[cfg2.towers[0].name]
+                    sweep_driver = "run_bldfm_parallel(time, 2 workers)"
+                else:
+                    series = bldfm.run_bldfm_timeseries(cfg2, cfg2.towers[0])
                 if cached:
                     series = bldfm.run_bldfm_timeseries(cfg2, cfg2.towers[0])
                     import shutil as _sh
@@ -327,10 +346,10 @@ def e2e(case):
             bk = math.degrees(math.atan2(float(np.sum(fk[reg] * rx[reg])), float(np.sum(fk[reg] * ry[reg])))) % 360.0
             nsweep += 1
             if angdiff(bk, d_k) > 5.0:
-                viol.append({"what": "footprint_not_upwind_of_tower", "driver": "run_bldfm_timeseries", "step": k, "bearing_deg": bk,
+                viol.append({"what": "footprint_not_upwind_of_tower", "driver": sweep_driver, "step": k, "bearing_deg": bk,
                              "wind_dir": d_k, "error_deg": angdiff(bk, d_k), "directions": sweep[0], "case": desc})
     discr = min(angdiff(wd, 0.0), angdiff(wd, 180.0)) > 2.5
-    b = {"met_values:int" if int_typed else "met_values:float": 1, f"closure:{closure}": 1, "oblong" if oblong else "square": 1, f"forcing:{forcing}": 1, "stable" if L > 0 else "unstable": 1,
+    b = {"met_values:int" if int_typed else "met_values:float": 1, **({f"sweep:{sweep_driver}": 1} if sweep is not None else {}), f"closure:{closure}": 1, "oblong" if oblong else "square": 1, f"forcing:{forcing}": 1, "stable" if L > 0 else "unstable": 1,
          f"halo:{'default' if halo is None else 'explicit'}": 1, f"levels:{lev_kind}": 1, "elongated" if elong else "compact": 1, f"octant:{int(wd // 45) % 8}": 1, f"prec:{desc['precision']}": 1}
     return {"evals": 1, "nontrivial": bool(discr), "sig": f"{wd:.3f}|{closure}|{nx}x{ny}|{case['idx']}", "buckets": b,
             "resid": {"bearing_error_deg": err, "centre_of_mass_bearing_error_deg_default_halo": err_all if halo is None else None,
